@@ -37,6 +37,8 @@ func c09(r *core.Run) {
 	r.Rule("S2", "type x list: resource patterns are combined with {get,call,auth}, access patterns with access; the method wildcard is appended only where the last byte is not '>'", 3)
 	r.Rule("S3", "subscription shape: every subscription passes the in-channel; the queue variant is used iff the queue group is non-empty with that group; each subscription loop skips patterns covered by another pattern", 6)
 	r.Rule("S4", "errors: a failed subscription returns its error from subscribe, and serve tests subscribe's result", 3)
+	r.Rule("S11", "covering is decided token-wise (shared with C17.G1): Pattern.Matches, which decides which owned pattern covers which (and so which subjects are subscribed), gives '$', '*' or '>' wildcard meaning only under its token-start flag - a shortcut that compares raw prefixes up to a '>' treats \"a.>\" as covering \"ab.c\", and the subscription for the covered pattern is dropped", 3)
+	c17WildcardGuard(r, "S11", func(fn *ssa.Function) bool { return fn.Name() == "Matches" })
 	r.Rule("S10", "one set of subscriptions per run: the subscribing function is called only from serve's start-up sequence (never from the reconnect handler or any other entry point): the client library restores subscriptions after a reconnect itself, a second call duplicates every subscription", 1)
 	r.Rule("S5", "ownership predicate: the handler kinds read by the default-ownership predicates are exactly the kinds the dispatcher serves (resources: Get, Call, Auth, New; access: Access)", 2)
 	r.Rule("S8", "kind detection is exhaustive: in the trie traversal behind Mux.Contains the predicate's result is only ever branched on - a false answer for one node never ends the traversal (it is never returned or merged into the result), so a handler kind registered anywhere in the trie is found", 1)
